@@ -17,7 +17,7 @@ RULE = ('every (culture, model, prefix|suffix, unit, spelling) entry of the live
         'non-trivial = a table entry that was executed; distinct = distinct (culture, model, kind, unit, spelling). exhaustive over the tables in both tiers '
         '(quick tier: numerals 12 and 3.5; thorough: all three numerals and a carrier sentence).')
 EXHAUSTIVE = True
-JOB_TIMEOUT = 2400
+JOB_TIMEOUT = 5400
 MODELS = ['CurrencyModel', 'DimensionModel', 'TemperatureModel', 'AgeModel']
 CONNECT = {'en-us': 'and', 'es-es': 'y', 'es-mx': 'y', 'fr-fr': 'et', 'pt-br': 'e', 'it-it': 'e', 'de-de': 'und', 'nl-nl': 'en'}
 
